@@ -449,7 +449,7 @@ func init() {
 	})
 	register(&SimProp{
 		ID:       "C03",
-		Profiles: []*Profile{dataProfile("c03-customs", map[string]int{"custom": 30, "mutate": 14, "reaccess": 4, "qevent": 2, "sysreset": 4})},
+		Profiles: []*Profile{dataProfile("c03-customs", map[string]int{"trigburst": 6, "custom": 45, "mutate": 14, "reaccess": 4, "qevent": 2, "sysreset": 4})},
 		Config:   graphConfig,
 		Monitors: func() []Monitor { return []Monitor{NewMonC03()} },
 		Trigger:  triggerData,
@@ -462,6 +462,9 @@ func triggerData(w *World, v Violation) string {
 		return ""
 	}
 	c := w.Clients[v.Conn]
+	if t := triggerRevived(w, v); t != "" {
+		return t
+	}
 	// reset-query-race: a second get for the same (name, query) was answered
 	// while a query request for the name was pending.
 	if v.Class == "diverged" || v.Class == "tail_missing" || v.Class == "order_gap_or_duplicate" {
@@ -588,6 +591,7 @@ func init() {
 			map[string]int{"grant": 10, "getonly": 4, "deny": 6, "denied": 3, "err": 3, "timeout": 2, "noresult": 2, "noresp": 1, "callonly": 2})},
 		Config:   accessConfig,
 		Monitors: func() []Monitor { return []Monitor{NewMonC04()} },
+		Trigger:  triggerRevived,
 	})
 	register(&SimProp{
 		ID: "C05",
@@ -595,13 +599,15 @@ func init() {
 			map[string]int{"grant": 6, "calllist": 12, "callonly": 3, "deny": 2, "denied": 2, "err": 1, "timeout": 1})},
 		Config:   accessConfig,
 		Monitors: func() []Monitor { return []Monitor{NewMonC05()} },
+		Trigger:  triggerRevived,
 	})
 	register(&SimProp{
 		ID: "C06",
-		Profiles: []*Profile{accessProfile("c06-revoke", map[string]int{"custom": 14, "mutate": 8, "token": 9, "reaccess": 9, "sysreset": 6, "subscribe": 16, "call": 1, "new": 1, "auth": 0, "httpget": 0, "httppost": 0},
+		Profiles: []*Profile{accessProfile("c06-revoke", map[string]int{"trigburst": 14, "custom": 14, "mutate": 8, "token": 9, "reaccess": 9, "sysreset": 6, "subscribe": 16, "call": 1, "new": 1, "auth": 0, "httpget": 0, "httppost": 0},
 			map[string]int{"grant": 10, "getonly": 3, "deny": 5, "denied": 3, "err": 2, "timeout": 2})},
 		Config:   accessConfig,
 		Monitors: func() []Monitor { return []Monitor{NewMonC06()} },
+		Trigger:  triggerRevived,
 	})
 }
 
@@ -646,4 +652,32 @@ func init() {
 		},
 		Trigger: triggerData,
 	})
+}
+
+// triggerRevived recognises the history of the known finding
+// "deleted-resource-revived": the client received a delete event for the
+// resource while it kept holding it indirectly, and subscribed to it again
+// afterwards; the gateway answers from the dead subscription, which receives
+// no further events, re-fetches or access re-checks.
+func triggerRevived(w *World, v Violation) string {
+	if v.Conn < 0 || v.Conn >= len(w.Clients) || v.RID == "" {
+		return ""
+	}
+	c := w.Clients[v.Conn]
+	delT := -1
+	for _, ev := range c.Ref.Events {
+		if ev.RID == v.RID && ev.Event == "delete" && ev.T < v.T {
+			delT = ev.T
+		}
+	}
+	if delT < 0 {
+		return ""
+	}
+	for _, id := range c.Ref.ReqOrder {
+		q := c.Ref.Reqs[id]
+		if q.SentT > delT && !q.IsError && q.Resp > 0 && (q.RID == v.RID || q.ResRID == v.RID) && (q.Action == "subscribe" || q.Action == "get" || q.ResRID != "") {
+			return "deleted-resource-revived"
+		}
+	}
+	return ""
 }
